@@ -205,7 +205,14 @@ func c31Facts(repo string, facts map[string]any) {
 						case "Fd":
 							// os.File.Fd puts the file into blocking mode: read deadlines stop working
 							if len(x.Args) == 0 {
-								ctxs = append(ctxs, c31Ctx{fn, where, "Fd-call"})
+								kind := "Fd-call" // ":chardev-only" = the function tests ModeCharDevice before this call
+								ast.Inspect(fd.Body, func(y ast.Node) bool {
+									if se2, ok := y.(*ast.SelectorExpr); ok && se2.Sel.Name == "ModeCharDevice" && se2.Pos() < x.Pos() {
+										kind = "Fd-call:chardev-only"
+									}
+									return true
+								})
+								ctxs = append(ctxs, c31Ctx{fn, where, kind})
 							}
 							}
 						}
